@@ -384,10 +384,10 @@ Definition dom_of (t : tree scalar) : path -> bool :=
 Definition sub_none (o : option subscriber) : bool := match o with None => true | Some _ => false end.
 
 Lemma feed_leaf_none o g p : sub_none (feed_leaf o g p) = sub_none o.
-Proof. destruct o as [sb|]; cbn; [|reflexivity]. now destruct (mmatch (sb_query sb) p). Qed.
+Proof. destruct o as [sb|]; cbn [feed_leaf]; [|reflexivity]. now destruct (sub_matches sb p). Qed.
 
 Lemma feed_del_none o d : sub_none (feed_del o d) = sub_none o.
-Proof. destruct o as [sb|]; cbn; [|reflexivity]. now destruct (mmatch _ _). Qed.
+Proof. destruct o as [sb|]; cbn [feed_del]; [|reflexivity]. now destruct (sub_matches sb _). Qed.
 
 Lemma cache_update_one_none w r : sub_none (w_sub (cache_update_one w r)) = sub_none (w_sub w).
 Proof.
@@ -437,20 +437,21 @@ Section Relay.
 Variable name : string.
 Variable Keys : path -> Prop.          (* the target's schema: origin :: path strings *)
 Variable Vals : tv -> Prop.            (* the values the target sends *)
-Variable Q Qr : path.                  (* the registered query *)
+Variable Qrs : list path.               (* the registered queries, without the target name *)
 Hypothesis Keys_gf : forall a, Keys a -> glob_free a = true.
 Hypothesis Vals_dec : forall v, Vals v -> to_scalar v <> None.
 Hypothesis Vals_canon : forall a b, Vals a -> Vals b -> tv_equal a b = true -> to_scalar a = to_scalar b.
 Hypothesis Vals_peq : forall a b, Vals a -> Vals b -> tv_eqb a b = true -> a = b.
-Hypothesis Q_eq : Q = name :: Qr.
-Hypothesis Q_gf : glob_free Q = true.
-Hypothesis Q_above : forall k, Keys k -> strict_prefix (name :: k) Q = false.
+Hypothesis Q_gf : forall Qr, In Qr Qrs -> glob_free Qr = true.
+Hypothesis Q_above : forall Qr k, In Qr Qrs -> Keys k -> strict_prefix k Qr = false.
 Hypothesis name_ne : name <> "".
+Hypothesis name_ng : is_glob name = false.
 
-Lemma name_ng : is_glob name = false.
-Proof. rewrite Q_eq in Q_gf. cbn in Q_gf. apply andb_true_iff in Q_gf as [H _]. now apply negb_true_iff. Qed.
+(** the paths the subscriber is registered under *)
+Definition Qs : list path := map (cons name) Qrs.
 
-Definition under (k : path) : bool := is_prefix Q (name :: k).
+(** a key the subscription selects: below one of its entries *)
+Definition under (k : path) : bool := existsb (fun Qr => is_prefix Qr k) Qrs.
 
 Record rec_ok (r : leafrec) : Prop := {
   ro_target : g_target (lr_prefix r) = name;
@@ -473,16 +474,30 @@ Proof.
     with (full_path r). now rewrite (full_path_ok r Hr).
 Qed.
 
-Lemma mmatch_under k : Keys k -> mmatch Q (name :: k) = under k.
+Lemma mmatch_under1 Qr k : In Qr Qrs -> Keys k -> mmatch (name :: Qr) (name :: k) = is_prefix Qr k.
 Proof.
-  intros Hk. unfold under. destruct (is_prefix Q (name :: k)) eqn:E; [now apply mmatch_prefix|].
-  destruct (mmatch Q (name :: k)) eqn:Hm; [|reflexivity].
-  apply mmatch_glob_free in Hm; [|assumption|].
-  - destruct Hm as [Hm|Hm]; [congruence|].
-    apply is_prefix_strict_or_eq in Hm as [Hm|Hm].
-    + rewrite <- Hm, is_prefix_refl in E. discriminate.
-    + rewrite Q_above in Hm by assumption. discriminate.
-  - cbn. rewrite name_ng. cbn. now apply Keys_gf.
+  intros Hq Hk. cbn [mmatch]. rewrite name_ng, String.eqb_refl. cbn [orb andb].
+  destruct (is_prefix Qr k) eqn:E; [now apply mmatch_prefix|].
+  destruct (mmatch Qr k) eqn:Hm; [|reflexivity].
+  apply mmatch_glob_free in Hm; [|now apply Q_gf|now apply Keys_gf].
+  destruct Hm as [Hm|Hm]; [congruence|].
+  apply is_prefix_strict_or_eq in Hm as [Hm|Hm].
+  - rewrite <- Hm, is_prefix_refl in E. discriminate.
+  - rewrite (Q_above Qr k Hq Hk) in Hm. discriminate.
+Qed.
+
+Lemma sub_matches_all sb full : sub_matches sb full = existsb (fun Q => mmatch Q full) (sb_queries sb).
+Proof. reflexivity. Qed.
+
+Lemma mmatch_under sb k : sb_queries sb = Qs -> Keys k -> sub_matches sb (name :: k) = under k.
+Proof.
+  intros Hs Hk. rewrite sub_matches_all, Hs. unfold Qs, under.
+  assert (G : forall l, (forall Qr, In Qr l -> In Qr Qrs) ->
+            existsb (fun Q => mmatch Q (name :: k)) (map (cons name) l) = existsb (fun Qr => is_prefix Qr k) l).
+  { induction l as [|Qr l IH]; intros Hl; cbn [map existsb]; [reflexivity|].
+    rewrite (mmatch_under1 Qr k) by (auto; apply Hl; now left). rewrite IH; [reflexivity|].
+    intros; apply Hl; now right. }
+  apply G. auto.
 Qed.
 
 Definition item_ok (H : heap) (i : qitem) : Prop :=
@@ -493,7 +508,7 @@ Definition item_ok (H : heap) (i : qitem) : Prop :=
   end.
 
 Record sub_inv (T : tree nat) (H : heap) (TF : tfun) (sb : subscriber) : Prop := {
-  si_query : sb_query sb = Q;
+  si_query : sb_queries sb = Qs;
   si_err : cl_err (sb_client sb) = false;
   si_wf : wf_tree (cl_tree (sb_client sb));
   si_stored : forall p s, lookup (cl_tree (sb_client sb)) p = Some s -> exists k, p = name :: k /\ Keys k;
@@ -611,7 +626,7 @@ Lemma sub_upd_existing T H TF sb g old r q' :
                         \/ under (idx r) = false))
   \/ (q' = sb_queue sb ++ [QLeaf g] /\ under (idx r) = true) ->
   sub_inv T (hset H g r) (tfset TF (idx r) (lr_ts r) (lr_val r))
-    {| sb_target := sb_target sb; sb_query := sb_query sb; sb_queue := q'; sb_client := sb_client sb |}.
+    {| sb_target := sb_target sb; sb_query := sb_query sb; sb_more := sb_more sb; sb_queue := q'; sb_client := sb_client sb |}.
 Proof.
   intros Hsi Hlk Hold Hoko Hidx Hr Htf Hpf Hq'. pose proof Hsi as [S1 S2 S3 S4 S5 S6 S7 S8].
   assert (Hfp : full_path old = full_path r)
@@ -628,7 +643,7 @@ Proof.
   { intros k Hk. destruct Hq' as [[-> _]|[-> _]]; [reflexivity|].
     rewrite last_conc_app. cbn [last_conc]. rewrite Hcg.
     destruct (path_eqb_spec (name :: idx r) (name :: k)) as [E|_]; [inversion E; congruence|reflexivity]. }
-  constructor; cbn [sb_query sb_queue sb_client]; auto.
+  constructor; cbn [sb_queries sb_query sb_more sb_queue sb_client]; auto.
   - (* items *)
     intros i Hi. destruct (Hq'in i Hi) as [Hi0|[-> Hu]].
     + specialize (S5 i Hi0). destruct i as [g1|d|]; cbn [item_ok] in *; auto.
@@ -689,7 +704,7 @@ Lemma sub_upd_new T T' H gen TF sb r q' :
   (forall k', TF k' <> None -> conflict k' (idx r) = false) ->
   q' = (if under (idx r) then sb_queue sb ++ [QLeaf gen] else sb_queue sb) ->
   sub_inv T' (hset H gen r) (tfset TF (idx r) (lr_ts r) (lr_val r))
-    {| sb_target := sb_target sb; sb_query := sb_query sb; sb_queue := q'; sb_client := sb_client sb |}.
+    {| sb_target := sb_target sb; sb_query := sb_query sb; sb_more := sb_more sb; sb_queue := q'; sb_client := sb_client sb |}.
 Proof.
   intros Hsi Hheap HT' Hnone Htf Hr Hpf ->. pose proof Hsi as [S1 S2 S3 S4 S5 S6 S7 S8].
   assert (Hfresh : hget H gen = None).
@@ -714,7 +729,7 @@ Proof.
     - now rewrite path_eqb_refl.
     - destruct (path_eqb_spec (name :: idx r) (name :: k)) as [E|_]; [inversion E; congruence|].
       now destruct (last_conc H (name :: k) (sb_queue sb)). }
-  constructor; cbn [sb_query sb_queue sb_client]; auto.
+  constructor; cbn [sb_queries sb_query sb_more sb_queue sb_client]; auto.
   - intros i Hi.
     assert (Hi' : In i (sb_queue sb) \/ (i = QLeaf gen /\ under (idx r) = true)).
     { destruct (under (idx r)); [|auto]. apply in_app_iff in Hi as [Hi|[<-|[]]]; auto. }
@@ -809,18 +824,18 @@ Proof.
        [intros k0; apply tfupd_set; now rewrite Htf|]);
       constructor; auto; try exact Hpf'.
     + destruct sub as [sb|]; [|exact I].
-      replace sb with {| sb_target := sb_target sb; sb_query := sb_query sb; sb_queue := sb_queue sb;
+      replace sb with {| sb_target := sb_target sb; sb_query := sb_query sb; sb_more := sb_more sb; sb_queue := sb_queue sb;
                          sb_client := sb_client sb |} by (destruct sb; reflexivity).
       eapply sub_upd_existing; eauto. left. split; [reflexivity|]. right. left.
       apply Vals_canon; [apply Hoko|apply Hr|assumption].
     + destruct sub as [sb|]; cbn [feed_leaf]; [|exact I].
       rewrite (full_path_ok r Hr).
-      replace (mmatch (sb_query sb) (name :: idx r)) with (under (idx r))
-        by (rewrite (si_query _ _ _ _ N5); symmetry; apply mmatch_under, Hr).
+      replace (sub_matches sb (name :: idx r)) with (under (idx r))
+        by (symmetry; apply (mmatch_under sb _ (si_query _ _ _ _ N5)), Hr).
       destruct (under (idx r)) eqn:Hu.
       * eapply sub_upd_existing; eauto. unfold q_insert_leaf.
         destruct (existsb (qitem_is_leaf g) (sb_queue sb)) eqn:Ex; [left|right]; auto.
-      * replace sb with {| sb_target := sb_target sb; sb_query := sb_query sb; sb_queue := sb_queue sb;
+      * replace sb with {| sb_target := sb_target sb; sb_query := sb_query sb; sb_more := sb_more sb; sb_queue := sb_queue sb;
                            sb_client := sb_client sb |} by (destruct sb; reflexivity).
         eapply sub_upd_existing; eauto.
   - (* a branch where a leaf is written: impossible in a prefix-free schema *)
@@ -857,8 +872,8 @@ Proof.
       intros E. apply N4 in E. lia.
     + destruct sub as [sb|]; cbn [feed_leaf]; [|exact I].
       rewrite (full_path_ok r Hr).
-      replace (mmatch (sb_query sb) (name :: idx r)) with (under (idx r))
-        by (rewrite (si_query _ _ _ _ N5); symmetry; apply mmatch_under, Hr).
+      replace (sub_matches sb (name :: idx r)) with (under (idx r))
+        by (symmetry; apply (mmatch_under sb _ (si_query _ _ _ _ N5)), Hr).
       assert (Hnp : existsb (qitem_is_leaf gen) (sb_queue sb) = false).
       { destruct (existsb (qitem_is_leaf gen) (sb_queue sb)) eqn:Ex; [|reflexivity].
         apply existsb_exists in Ex as (i & Hi & Hig). destruct i as [g1|d|]; cbn in Hig; try discriminate.
@@ -866,7 +881,7 @@ Proof.
         apply N4 in Hr0. lia. }
       destruct (under (idx r)) eqn:Hu.
       * unfold q_insert_leaf. rewrite Hnp. eapply sub_upd_new; eauto. now rewrite Hu.
-      * replace sb with {| sb_target := sb_target sb; sb_query := sb_query sb; sb_queue := sb_queue sb;
+      * replace sb with {| sb_target := sb_target sb; sb_query := sb_query sb; sb_more := sb_more sb; sb_queue := sb_queue sb;
                            sb_client := sb_client sb |} by (destruct sb; reflexivity).
         eapply sub_upd_new; eauto. now rewrite Hu.
 Qed.
@@ -921,14 +936,14 @@ Proof.
   change ((if str_nonempty (d_target (to_delete old ts)) then [d_target (to_delete old ts)] else []) ++
           (if str_nonempty (d_origin (to_delete old ts)) then [d_origin (to_delete old ts)] else []) ++
           to_strings_gp (d_path (to_delete old ts)) false) with (del_full (to_delete old ts)).
-  rewrite (del_full_to_delete old ts Hok), Hidx, S1, (mmatch_under k) by (rewrite <- Hidx; apply Hok).
+  rewrite (del_full_to_delete old ts Hok), Hidx, (mmatch_under sb k S1) by (rewrite <- Hidx; apply Hok).
   assert (Hk : Keys k) by (rewrite <- Hidx; apply Hok).
   assert (Htm : forall k1, tf_minus TF (k :: D) k1 = if path_eqb k1 k then None else tf_minus TF D k1).
   { intros k1. unfold tf_minus, mem. cbn [existsb]. now destruct (path_eqb k1 k). }
   destruct (under k) eqn:Hu.
   - assert (Hcd : forall p, concerns H p (QDel (to_delete old ts)) = path_eqb (name :: k) p).
     { intros p. cbn [concerns]. now rewrite (del_full_to_delete old ts Hok), Hidx. }
-    constructor; cbn [sb_query sb_queue sb_client]; auto.
+    constructor; cbn [sb_queries sb_query sb_more sb_queue sb_client]; auto.
     + intros i Hi. apply in_app_iff in Hi as [Hi|[<-|[]]]; [auto|].
       cbn [item_ok]. exists k. rewrite (del_full_to_delete old ts Hok), Hidx. auto.
     + intros k1 Hk1. rewrite Htm. unfold final. rewrite last_conc_app. cbn [last_conc]. rewrite Hcd.
@@ -1130,7 +1145,7 @@ Qed.
 
 Lemma send_step T H TF sb i q' :
   sub_inv T H TF sb -> sb_queue sb = i :: q' ->
-  sub_inv T H TF {| sb_target := sb_target sb; sb_query := sb_query sb; sb_queue := q';
+  sub_inv T H TF {| sb_target := sb_target sb; sb_query := sb_query sb; sb_more := sb_more sb; sb_queue := q';
                     sb_client := deliver H (sb_client sb) i |}.
 Proof.
   intros [S1 S2 S3 S4 S5 S6 S7 S8] Hq. rewrite Hq in *.
@@ -1177,7 +1192,7 @@ Proof.
       + intros k Hk. rewrite Hl'. rewrite (path_eqb_sym_b (name :: k)). reflexivity.
     - unfold client_sync. rewrite S2. eexists. split; [reflexivity|]. cbn [cl_err cl_tree stepD]. auto. }
   destruct Heff as (c' & -> & E1 & E2 & E3 & E5 & E4).
-  constructor; cbn [sb_query sb_queue sb_client]; auto.
+  constructor; cbn [sb_queries sb_query sb_more sb_queue sb_client]; auto.
   - intros j Hj. apply S5. now right.
   - intros k Hk. specialize (S6 k Hk). unfold final in *. cbn [last_conc] in S6.
     destruct (last_conc H (name :: k) q') as [j|]; [assumption|].
@@ -1188,7 +1203,7 @@ Qed.
 
 Lemma drain_steps T H TF : forall q sb,
   sub_inv T H TF sb -> sb_queue sb = q ->
-  sub_inv T H TF {| sb_target := sb_target sb; sb_query := sb_query sb; sb_queue := [];
+  sub_inv T H TF {| sb_target := sb_target sb; sb_query := sb_query sb; sb_more := sb_more sb; sb_queue := [];
                     sb_client := drain_queue H (sb_client sb) q |}.
 Proof.
   induction q as [|i q IH]; intros sb Hs Hq; cbn [drain_queue].
@@ -1219,60 +1234,68 @@ Proof.
     + inversion Hc; subst fp. reflexivity.
 Qed.
 
-Lemma subscribe_step T H gen TF (q : cquery) :
-  ninv T H gen None TF -> sub_query q = Q -> g_target (cq_prefix q) = name ->
-  complete_path (cq_prefix q) (cq_path q) = Some Qr ->
-  sub_inv T H TF {| sb_target := name; sb_query := Q;
-                    sb_queue := map QLeaf (map snd (query T Qr)) ++ [QSync]; sb_client := client0 |}.
+Lemma entry_query_complete pre p fp :
+  complete_path pre p = Some fp -> g_target pre <> "" -> entry_query pre p = g_target pre :: fp.
 Proof.
-  intros [N1 N2 N3 N4 Npf _] HQ Ht Hcp.
-  assert (Hqr : glob_free Qr = true).
-  { pose proof Q_gf as Hg. rewrite Q_eq in Hg. cbn in Hg. now apply andb_true_iff in Hg as [_ Hg]. }
-  assert (Hunder : forall k, under k = qmatch Qr k).
-  { intros k. unfold under. rewrite Q_eq. cbn [is_prefix]. rewrite String.eqb_refl. cbn [andb].
-    symmetry. now apply qmatch_glob_free. }
-  assert (Hin : forall i, In i (map QLeaf (map snd (query T Qr)) ++ [QSync]) ->
+  intros Hc Ht. unfold entry_query.
+  apply (sub_query_complete {| cq_prefix := pre; cq_path := p; cq_more := [] |} fp Hc Ht).
+Qed.
+
+Lemma dedup_nat_In l g : In g (dedup_nat l) <-> In g l.
+Proof.
+  induction l as [|x l IH]; cbn; [tauto|]. rewrite filter_In, IH, negb_true_iff, Nat.eqb_neq.
+  destruct (Nat.eq_dec g x) as [->|Hn]; [tauto|]. split; [intros [E|[Hi _]]; auto|intros [E|Hi]; [congruence|auto]].
+Qed.
+
+(** a subscriber whose queue is a snapshot: every selected live leaf, once *)
+Lemma subscribe_step T H gen TF q0 more gs :
+  ninv T H gen None TF -> q0 :: more = Qs ->
+  (forall g, In g gs -> exists k, lookup T k = Some g /\ under k = true) ->
+  (forall k g, lookup T k = Some g -> under k = true -> In g gs) ->
+  sub_inv T H TF {| sb_target := name; sb_query := q0; sb_more := more;
+                    sb_queue := map QLeaf gs ++ [QSync]; sb_client := client0 |}.
+Proof.
+  intros [N1 N2 N3 N4 Npf _] HQ Hsel Hall.
+  assert (Hin : forall i, In i (map QLeaf gs ++ [QSync]) ->
             i = QSync \/ exists k g, i = QLeaf g /\ lookup T k = Some g /\ under k = true).
   { intros i Hi. apply in_app_iff in Hi as [Hi|[<-|[]]]; [|now left]. right.
-    apply in_map_iff in Hi as (g & <- & Hg). apply in_map_iff in Hg as ([k g'] & E & Hkg). cbn in E. subst g'.
-    apply (query_exact T Qr k g N1) in Hkg as [Hl Hm]. exists k, g. rewrite Hunder. auto. }
-  assert (Hconc : forall k i, In i (map QLeaf (map snd (query T Qr)) ++ [QSync]) ->
+    apply in_map_iff in Hi as (g & <- & Hg). destruct (Hsel g Hg) as (k & Hl & Hu). eauto. }
+  assert (Hconc : forall k i, In i (map QLeaf gs ++ [QSync]) ->
             concerns H (name :: k) i = true -> exists g, i = QLeaf g /\ lookup T k = Some g).
   { intros k i Hi Hc. destruct (Hin i Hi) as [->|(k' & g & -> & Hl & Hu)]; [discriminate|].
     destruct (N2 _ _ Hl) as (_ & r & Hr & Hok & Hidx & _). cbn [concerns] in Hc. rewrite Hr in Hc.
     apply path_eqb_eq in Hc. rewrite (full_path_ok r Hok) in Hc. inversion Hc. exists g. split; congruence. }
-  constructor; cbn [sb_query sb_queue sb_client client0 cl_err cl_tree]; auto.
+  constructor; cbn [sb_queries sb_query sb_more sb_queue sb_client client0 cl_err cl_tree]; auto.
   - exact I.
   - intros p s. cbn. discriminate.
   - intros i Hi. destruct (Hin i Hi) as [->|(k & g & -> & Hl & Hu)]; [exact I|].
     destruct (N2 _ _ Hl) as (_ & r & Hr & Hok & Hidx & _). exists r. rewrite Hidx. auto.
   - intros k Hk. unfold final.
-    destruct (last_conc H (name :: k) (map QLeaf (map snd (query T Qr)) ++ [QSync])) as [i|] eqn:El.
+    destruct (last_conc H (name :: k) (map QLeaf gs ++ [QSync])) as [i|] eqn:El.
     + apply last_conc_In in El as [Hi Hc]. destruct (Hconc k i Hi Hc) as (g & -> & Hl).
       destruct (Hin _ Hi) as [E|(k' & g' & E & Hl' & Hu)]; [discriminate|]. inversion E; subst g'.
       destruct (N2 _ _ Hl) as (_ & r & Hr & Hok & Hidx & Htf). rewrite Hr, Htf. cbn [decode].
-      (* k' = k: same object *)
       destruct (N2 _ _ Hl') as (_ & r' & Hr' & _ & Hidx' & _). rewrite Hr in Hr'. inversion Hr'; subst r'.
       assert (Hkk : k' = k) by congruence. rewrite Hkk in Hu. now rewrite Hu.
     + cbn. destruct (under k) eqn:Hu; [|reflexivity].
       destruct (TF k) as [x|] eqn:Htf; [|reflexivity]. exfalso.
       destruct (N3 _ _ Htf) as (g & Hl). destruct (N2 _ _ Hl) as (_ & r & Hr & Hok & Hidx & _).
-      assert (Hi : In (QLeaf g) (map QLeaf (map snd (query T Qr)) ++ [QSync])).
-      { apply in_app_iff. left. apply in_map. apply in_map_iff. exists (k, g). split; [reflexivity|].
-        apply (query_exact T Qr k g N1). rewrite <- Hunder. auto. }
+      assert (Hi : In (QLeaf g) (map QLeaf gs ++ [QSync])).
+      { apply in_app_iff. left. apply in_map. now apply (Hall k g). }
       apply (proj1 (last_conc_None _ _ _) El) in Hi. cbn [concerns] in Hi.
       rewrite Hr, (full_path_ok r Hok), Hidx, path_eqb_refl in Hi. discriminate.
   - intros k g Hl.
-    destruct (last_conc H (name :: k) (map QLeaf (map snd (query T Qr)) ++ [QSync])) as [i|] eqn:El; [|exact I].
+    destruct (last_conc H (name :: k) (map QLeaf gs ++ [QSync])) as [i|] eqn:El; [|exact I].
     apply last_conc_In in El as [Hi Hc]. destruct (Hconc k i Hi Hc) as (g' & -> & Hl'). congruence.
   - (* safe: the snapshot leaves are pairwise conflict-free *)
     rewrite map_app. apply safeD_app. split; [|cbn; auto].
     assert (G : forall l dom,
-       (forall k g, In (k, g) l -> lookup T k = Some g) ->
+       (forall g, In g l -> exists k, lookup T k = Some g) ->
        (forall s, dom s = true -> exists k', s = name :: k' /\ TF k' <> None) ->
-       safeD dom (map (ev H) (map QLeaf (map snd l)))).
-    { induction l as [|[k g] l IH]; intros dom Hl Hdom; cbn [map snd safeD ev]; [exact I|].
-      destruct (N2 _ _ (Hl k g (or_introl eq_refl))) as (_ & r & Hr & Hok & Hidx & Htf).
+       safeD dom (map (ev H) (map QLeaf l))).
+    { induction l as [|g l IH]; intros dom Hl Hdom; cbn [map safeD ev]; [exact I|].
+      destruct (Hl g (or_introl eq_refl)) as (k & Hk).
+      destruct (N2 _ _ Hk) as (_ & r & Hr & Hok & Hidx & Htf).
       rewrite Hr, (full_path_ok r Hok), Hidx. cbn [condD stepD]. split.
       - intros s Hs. destruct (Hdom s Hs) as (k' & -> & Hk'). rewrite conflict_cons. unfold conflict.
         destruct (TF k') as [y|] eqn:Ey; [|congruence].
@@ -1280,10 +1303,28 @@ Proof.
       - apply IH; [intros; apply Hl; now right|]. intros s Hs. apply orb_true_iff in Hs as [Hs|Hs]; [|auto].
         apply path_eqb_eq in Hs. exists k. split; [assumption|congruence]. }
     apply G.
-    + intros k g Hkg. now apply (query_exact T Qr k g N1) in Hkg as [Hl _].
+    + intros g Hg. destruct (Hsel g Hg) as (k & Hl & _). eauto.
     + intros s Hs. unfold dom_of in Hs. cbn in Hs. discriminate.
 Qed.
 
+(** what the snapshot walk over all entries collects *)
+Lemma snapshot_entries_spec T pre : forall ps frs gs,
+  wf_tree T -> map (complete_path pre) ps = map Some frs -> snapshot_entries T pre ps = Some gs ->
+  (forall g, In g gs <-> exists k fr, In fr frs /\ lookup T k = Some g /\ qmatch fr k = true).
+Proof.
+  induction ps as [|p ps IH]; intros [|fr frs] gs Hwf Hm Hs; cbn in Hm, Hs; try discriminate.
+  - inversion Hs; subst. intros g. split; [intros []|intros (k & fr & [] & _)].
+  - inversion Hm as [[Hc Hm']]. rewrite Hc in Hs.
+    destruct (snapshot_entries T pre ps) as [gs'|] eqn:Es; [|discriminate]. inversion Hs; subst gs.
+    intros g. rewrite in_app_iff, (IH frs gs' Hwf Hm' eq_refl g). split.
+    + intros [Hg|(k & fr0 & Hin & Hl & Hq)].
+      * apply in_map_iff in Hg as ([k g'] & E & Hkg). cbn in E. subst g'.
+        apply (query_exact T fr k g Hwf) in Hkg as [Hl Hq]. exists k, fr. cbn. auto.
+      * exists k, fr0. cbn. auto.
+    + intros (k & fr0 & [<-|Hin] & Hl & Hq).
+      * left. apply in_map_iff. exists (k, g). split; [reflexivity|]. now apply (query_exact T fr k g Hwf).
+      * right. eauto.
+Qed.
 
 (** ** whole runs *)
 
@@ -1371,9 +1412,32 @@ Proof.
 Qed.
 
 Variable cq : cquery.
-Hypothesis cq_query : sub_query cq = Q.
 Hypothesis cq_target : g_target (cq_prefix cq) = name.
-Hypothesis cq_complete : complete_path (cq_prefix cq) (cq_path cq) = Some Qr.
+(** every entry's path completes (path.CompletePath) to one of the registered queries, in order *)
+Hypothesis cq_complete : map (complete_path (cq_prefix cq)) (cq_paths cq) = map Some Qrs.
+
+Lemma cq_queries : sub_queries cq = Qs.
+Proof.
+  change (sub_queries cq) with (map (entry_query (cq_prefix cq)) (cq_paths cq)). unfold Qs.
+  revert cq_complete. generalize (cq_paths cq) Qrs.
+  induction l as [|p ps IH]; intros [|fr frs] Hm; cbn [map] in Hm |- *; try discriminate; [reflexivity|].
+  inversion Hm as [[Hc Hm']]. rewrite (entry_query_complete _ _ _ Hc) by (rewrite cq_target; exact name_ne).
+  now rewrite cq_target, (IH frs Hm').
+Qed.
+
+Lemma snapshot_entries_some T pre : forall ps frs,
+  map (complete_path pre) ps = map Some frs -> exists gs, snapshot_entries T pre ps = Some gs.
+Proof.
+  induction ps as [|p ps IH]; intros [|fr frs] Hm; cbn in Hm |- *; try discriminate; [eauto|].
+  inversion Hm as [[Hc Hm']]. rewrite Hc. destruct (IH frs Hm') as (gs & ->). eauto.
+Qed.
+
+Lemma under_qmatch k : under k = true <-> exists fr, In fr Qrs /\ qmatch fr k = true.
+Proof.
+  unfold under. rewrite existsb_exists. split; intros (fr & Hin & Hq); exists fr; split; auto.
+  - now rewrite qmatch_glob_free by (now apply Q_gf).
+  - now rewrite <- qmatch_glob_free by (now apply Q_gf).
+Qed.
 
 Lemma subscribe_pinv st TF :
   pinv st TF -> ps_sub st = None ->
@@ -1381,11 +1445,16 @@ Lemma subscribe_pinv st TF :
 Proof.
   intros [Hf (T & HT & Hn)] Hs. unfold subscribe_stream. rewrite cq_target.
   destruct (String.eqb_spec name "") as [E|_]; [contradiction|]. rewrite HT.
-  unfold snapshot. rewrite cq_complete. eexists. split; [reflexivity|]. split; [|discriminate].
+  unfold snapshot. destruct (snapshot_entries_some T _ _ _ cq_complete) as (gs & Hgs). rewrite Hgs.
+  eexists. split; [reflexivity|]. split; [|discriminate].
   split; [assumption|]. exists T. cbn [ps_cache ps_heap ps_gen ps_sub]. split; [assumption|].
-  rewrite Hs in Hn. destruct Hn as [N1 N2 N3 N4 N5]. constructor; auto.
-  rewrite cq_query. apply (subscribe_step T (ps_heap st) (ps_gen st) TF cq); auto.
-  constructor; auto.
+  rewrite Hs in Hn. pose proof Hn as [N1 N2 N3 N4 Npf N5]. constructor; auto.
+  pose proof (snapshot_entries_spec T _ _ _ _ N1 cq_complete Hgs) as Hspec.
+  apply (subscribe_step T (ps_heap st) (ps_gen st) TF); auto.
+  - exact cq_queries.
+  - intros g Hg. apply dedup_nat_In, Hspec in Hg as (k & fr & Hin & Hl & Hq).
+    exists k. split; [assumption|]. apply under_qmatch. eauto.
+  - intros k g Hl Hu. apply dedup_nat_In, Hspec. apply under_qmatch in Hu as (fr & Hin & Hq). eauto.
 Qed.
 
 Lemma send_pinv st TF : pinv st TF -> pinv (send_one st) TF.
@@ -1867,50 +1936,33 @@ Proof.
   apply Hni. change k with (fst (k, (t', v'))). now apply in_map.
 Qed.
 
+Lemma under_sel name (Qrs : list path) k :
+  existsb (fun q => is_prefix q (name :: k)) (map (cons name) Qrs) = under Qrs k.
+Proof.
+  unfold under. induction Qrs as [|Qr l0 IH]; cbn [map existsb is_prefix]; [reflexivity|].
+  now rewrite String.eqb_refl, IH.
+Qed.
+
 (** from the cache-order characterisation to the gNMI replay *)
-Lemma leaves_of_tf name Q s l :
+Lemma leaves_of_tf name Qrs s l :
   Forall no_porigin s -> NoDup (keys l) ->
   (forall p sc, In (p, sc) l <->
-     exists k, p = name :: k /\ is_prefix Q (name :: k) = true /\ decode (tf_run name s k) = Some sc) ->
-  Permutation l (selects Q (stamp_paths name (replay s))).
+     exists k, p = name :: k /\ under Qrs k = true /\ decode (tf_run name s k) = Some sc) ->
+  Permutation l (selects_any (map (cons name) Qrs) (stamp_paths name (replay s))).
 Proof.
   intros Hno Hnd Hl. pose proof (NoDup_replay s) as HndF.
   assert (Heq : forall k, tf_run name s k = tlook (replay s) k).
   { intros k. apply (run_equiv name s [] []); auto. constructor. }
+  pose proof (under_sel name Qrs) as Hsel.
   apply NoDup_Permutation.
   - now apply NoDup_of_keys.
-  - apply NoDup_of_keys. unfold selects. apply NoDup_keys_filter. now apply NoDup_stamp_paths.
-  - intros [p sc]. rewrite Hl. unfold selects. rewrite filter_In. cbn [fst]. rewrite in_stamp_paths. split.
-    + intros (k & -> & Hu & Hd). split; [|exact Hu]. rewrite Heq in Hd.
+  - apply NoDup_of_keys. unfold selects_any. apply NoDup_keys_filter. now apply NoDup_stamp_paths.
+  - intros [p sc]. rewrite Hl. unfold selects_any. rewrite filter_In. cbn [fst]. rewrite in_stamp_paths. split.
+    + intros (k & -> & Hu & Hd). split; [|now rewrite Hsel]. rewrite Heq in Hd.
       destruct (tlook (replay s) k) as [[t0 v]|] eqn:E; [|discriminate]. cbn in Hd.
       exists k, t0, v. split; [apply tlook_In; auto|auto].
-    + intros [(k & t & v & Hkv & Hs & ->) Hu]. exists k. split; [reflexivity|]. split; [exact Hu|].
+    + intros [(k & t & v & Hkv & Hs & ->) Hu]. exists k. split; [reflexivity|]. split; [now rewrite <- Hsel|].
       apply (tlook_In _ _ _ HndF) in Hkv. now rewrite Heq, Hkv.
-Qed.
-
-Theorem relay_single (name : string) (Keys : path -> Prop) (Vals : tv -> Prop) (Q Qr : path)
-    (cq : cquery) (s : list item) (cfg : config) (sched : list action) :
-  (forall a : path, Keys a -> glob_free a = true) ->
-  (forall v : tv, Vals v -> to_scalar v <> None) ->
-  (forall a b : tv, Vals a -> Vals b -> tv_equal a b = true -> to_scalar a = to_scalar b) ->
-  (forall a b : tv, Vals a -> Vals b -> tv_eqb a b = true -> a = b) ->
-  Q = name :: Qr -> glob_free Q = true ->
-  (forall k : path, Keys k -> strict_prefix (name :: k) Q = false) ->
-  name <> "" ->
-  sub_query cq = Q -> g_target (cq_prefix cq) = name ->
-  complete_path (cq_prefix cq) (cq_path cq) = Some Qr ->
-  Forall (item_good name Keys Vals) s -> Forall no_porigin s ->
-  prefix_free_from [] s = true ->
-  validate cfg = true -> In name (keys (cf_targets cfg)) ->
-  exists l, pipeline cfg [(name, s)] cq sched = VLeaves l /\
-            Permutation l (selects Q (stamp_paths name (replay s))).
-Proof.
-  intros K2 V1 V2 V3 HQ HQg HQa Hne Hq Ht Hc Hgood Hno Hpfc Hv Hin.
-  assert (Hpf : pf_items name tf0 s).
-  { apply (pf_items_of_check name s [] []); auto. constructor. }
-  destruct (relay_tf name Keys Vals Q Qr K2 V1 V2 V3 HQ HQg HQa Hne cq Hq Ht Hc s Hgood Hpf cfg sched Hv Hin)
-    as (l & Hp & Hnd & Hl).
-  exists l. split; [assumption|]. now apply (leaves_of_tf name Q s l).
 Qed.
 
 (** * Several targets: what one target's messages do to the others *)
@@ -1969,7 +2021,7 @@ Record wgen (n : string) (w : wstate) : Prop := {
 
 Definition sub_frame (n : string) (s s' : option subscriber) : Prop :=
   forall sb, s = Some sb ->
-    (forall p, mmatch (sb_query sb) (n :: p) = false) -> s' = s.
+    (forall p, sub_matches sb (n :: p) = false) -> s' = s.
 
 Lemma sub_frame_refl n s : sub_frame n s s.
 Proof. intros sb _ _. reflexivity. Qed.
@@ -2139,27 +2191,34 @@ Proof.
   - intros n3 Hn3. rewrite assoc_aset. destruct (String.eqb_spec n3 n); [contradiction|reflexivity].
 Qed.
 
+Lemma no_match_other name n' p (l : list path) :
+  is_glob name = false -> is_glob n' = false -> name <> n' ->
+  existsb (fun Q => mmatch Q (n' :: p)) (map (cons name) l) = false.
+Proof.
+  intros H1 H2 Hn. induction l as [|Qr l IH]; cbn [map existsb]; [reflexivity|].
+  now rewrite mmatch_other_head, IH.
+Qed.
+
 Section Multi.
 Variable name : string.
 Variable Keys : path -> Prop.
 Variable Vals : tv -> Prop.
-Variable Q Qr : path.
+Variable Qrs : list path.
 Hypothesis Keys_gf : forall a, Keys a -> glob_free a = true.
 Hypothesis Vals_dec : forall v, Vals v -> to_scalar v <> None.
 Hypothesis Vals_canon : forall a b, Vals a -> Vals b -> tv_equal a b = true -> to_scalar a = to_scalar b.
 Hypothesis Vals_peq : forall a b, Vals a -> Vals b -> tv_eqb a b = true -> a = b.
-Hypothesis Q_eq : Q = name :: Qr.
-Hypothesis Q_gf : glob_free Q = true.
-Hypothesis Q_above : forall k, Keys k -> strict_prefix (name :: k) Q = false.
+Hypothesis Q_gf : forall Qr, In Qr Qrs -> glob_free Qr = true.
+Hypothesis Q_above : forall Qr k, In Qr Qrs -> Keys k -> strict_prefix k Qr = false.
 Hypothesis name_ne : name <> "".
+Hypothesis name_ng : is_glob name = false.
 Variable cq : cquery.
-Hypothesis cq_query : sub_query cq = Q.
 Hypothesis cq_target : g_target (cq_prefix cq) = name.
-Hypothesis cq_complete : complete_path (cq_prefix cq) (cq_path cq) = Some Qr.
+Hypothesis cq_complete : map (complete_path (cq_prefix cq)) (cq_paths cq) = map Some Qrs.
 
-Local Notation ninv' := (ninv name Keys Vals Q).
-Local Notation pinv' := (pinv name Keys Vals Q).
-Local Notation sub_inv' := (sub_inv name Keys Vals Q).
+Local Notation ninv' := (ninv name Keys Vals Qrs).
+Local Notation pinv' := (pinv name Keys Vals Qrs).
+Local Notation sub_inv' := (sub_inv name Keys Vals Qrs).
 
 (** messages of another target leave the subscribed target's part of the state alone *)
 Lemma ninv_frame n' T H H' gen gen' sub TF :
@@ -2210,11 +2269,10 @@ Proof.
   split; [assumption|]. exists T. split; [rewrite Hc by congruence; assumption|].
   assert (Hsub : ps_sub (ingest st n' it) = ps_sub st).
   { destruct (ps_sub st) as [sb|] eqn:Esb.
-    - apply (Hs sb eq_refl). intros p. destruct Hni as [_ _ _ _ _ N5]. rewrite (si_query _ _ _ _ _ _ _ _ N5), Q_eq.
-      apply mmatch_other_head.
-      + apply (name_ng name Q Qr Q_eq Q_gf).
-      + apply (gi_names st Hg n' (assoc_Some_key _ _ _ Et)).
-      + congruence.
+    - apply (Hs sb eq_refl). intros p. destruct Hni as [_ _ _ _ _ N5].
+      rewrite sub_matches_all, (si_query _ _ _ _ _ _ _ _ N5). unfold Qs.
+      apply no_match_other; [exact name_ng| |congruence].
+      apply (gi_names st Hg n' (assoc_Some_key _ _ _ Et)).
     - apply sub_none_iff. rewrite ingest_sub_none, Esb. reflexivity. }
   rewrite Hsub. eapply ninv_frame; eauto.
 Qed.
@@ -2318,7 +2376,7 @@ Proof.
       * apply sub_none_iff. rewrite Hsn. now apply sub_none_iff.
       * intros E. apply (proj2 (sub_none_iff _)) in E. rewrite Hsn in E. apply sub_none_iff in E. contradiction.
   - unfold do_subscribe. destruct H7 as [[Hr Hs]|[Hr Hs]]; rewrite Hr.
-    + edestruct (subscribe_pinv name Keys Vals Q Qr) with (st := rn_st rs) (TF := tf_run name c)
+    + edestruct (subscribe_pinv name Keys Vals Qrs) with (st := rn_st rs) (TF := tf_run name c)
         as (st' & E & Hp & Hne); eauto.
       rewrite E. apply (Build_minv _ c rem); cbn [rn_st rn_streams rn_subres]; auto.
       eapply subscribe_ginv; eauto.
@@ -2405,7 +2463,7 @@ Lemma relay_multi_tf cfg ss sched :
   exists l, pipeline cfg ss cq sched = VLeaves l /\
     NoDup (map fst l) /\
     forall p sc, In (p, sc) l <->
-      exists k, p = name :: k /\ under name Q k = true /\ decode (tf_run name s k) = Some sc.
+      exists k, p = name :: k /\ under Qrs k = true /\ decode (tf_run name s k) = Some sc.
 Proof.
   intros Hv Hndt Hng Hin Hnds Hs Hok. unfold pipeline. pose proof (collector_start_spec cfg) as Hcs.
   destruct (collector_start cfg) as [[managed cached]|]; [|congruence].
@@ -2445,7 +2503,7 @@ Proof.
   assert (Htf : fold_left (tf_item name) rem (tf_run name c) = tf_run name s)
     by (unfold tf_run; now rewrite H1, fold_left_app).
   rewrite Htf in Hp.
-  eapply (finish_view name Keys Vals Q Qr) with (subres := rn_subres rs1); eauto.
+  eapply (finish_view name Keys Vals Qrs) with (subres := rn_subres rs1); eauto.
   destruct H7 as [[Hr Hs']|[Hr Hs']]; [left|right]; (split; [assumption|]).
   - apply sub_none_iff. rewrite Hsn. now apply sub_none_iff.
   - intros E. apply (proj2 (sub_none_iff _)) in E. rewrite Hsn in E. apply sub_none_iff in E. contradiction.
@@ -2459,16 +2517,16 @@ End Multi.
 Definition conforms (name : string) (Keys : path -> Prop) (Vals : tv -> Prop) (s : list item) : Prop :=
   Forall (item_good name Keys Vals) s /\ Forall no_porigin s /\ prefix_free_from [] s = true.
 
-Theorem relay_multi (name : string) (Keys : path -> Prop) (Vals : tv -> Prop) (Q Qr : path)
+Theorem relay_multi (name : string) (Keys : path -> Prop) (Vals : tv -> Prop) (Qrs : list path)
     (cq : cquery) (s : list item) (cfg : config) (ss : streams) (sched : list action) :
   (forall a : path, Keys a -> glob_free a = true) ->
   (forall v : tv, Vals v -> to_scalar v <> None) ->
   (forall a b : tv, Vals a -> Vals b -> tv_equal a b = true -> to_scalar a = to_scalar b) ->
   (forall a b : tv, Vals a -> Vals b -> tv_eqb a b = true -> a = b) ->
-  Q = name :: Qr -> glob_free Q = true ->
-  (forall k : path, Keys k -> strict_prefix (name :: k) Q = false) ->
-  sub_query cq = Q -> g_target (cq_prefix cq) = name ->
-  complete_path (cq_prefix cq) (cq_path cq) = Some Qr ->
+  (forall Qr, In Qr Qrs -> glob_free Qr = true) ->
+  (forall Qr k, In Qr Qrs -> Keys k -> strict_prefix k Qr = false) ->
+  g_target (cq_prefix cq) = name ->
+  map (complete_path (cq_prefix cq)) (cq_paths cq) = map Some Qrs ->
   conforms name Keys Vals s ->
   validate cfg = true -> NoDup (keys (cf_targets cfg)) ->
   (forall n, In n (keys (cf_targets cfg)) -> is_glob n = false) ->
@@ -2476,43 +2534,49 @@ Theorem relay_multi (name : string) (Keys : path -> Prop) (Vals : tv -> Prop) (Q
   NoDup (keys ss) -> assoc name ss = Some s ->
   (forall n' l, In (n', l) ss -> Forall (item_nometa n') l) ->
   exists l, pipeline cfg ss cq sched = VLeaves l /\
-            Permutation l (selects Q (stamp_paths name (replay s))).
+            Permutation l (selects_any (sub_queries cq) (stamp_paths name (replay s))).
 Proof.
-  intros K2 V1 V2 V3 HQ HQg HQa Hq Ht Hc (Hgood & Hno & Hpfc) Hv Hndt Hng Hin Hnds Hs Hok.
+  intros K2 V1 V2 V3 HQg HQa Ht Hc (Hgood & Hno & Hpfc) Hv Hndt Hng Hin Hnds Hs Hok.
   assert (Hne : name <> "").
   { apply in_map_iff in Hin as ([n0 t] & E & Hnt). cbn in E. subst n0. now destruct (validate_In cfg name t Hv Hnt). }
   assert (Hpf : pf_items name tf0 s).
   { apply (pf_items_of_check name s [] []); auto. constructor. }
-  destruct (relay_multi_tf name Keys Vals Q Qr K2 V1 V2 V3 HQ HQg HQa Hne cq Hq Ht Hc s Hgood Hpf
+  destruct (relay_multi_tf name Keys Vals Qrs K2 V1 V2 V3 HQg HQa Hne (Hng name Hin) cq Ht Hc s Hgood Hpf
               cfg ss sched Hv Hndt Hng Hin Hnds Hs Hok) as (l & Hp & Hnd & Hl).
-  exists l. split; [assumption|]. now apply (leaves_of_tf name Q s l).
+  exists l. split; [assumption|].
+  rewrite (cq_queries name Qrs Hne cq Ht Hc). now apply (leaves_of_tf name Qrs s l).
 Qed.
 
 (** the same without the auxiliary key set: every update path is glob-free and
-    the subscription path does not run below it *)
-Definition stream_ok (name : string) (Vals : tv -> Prop) (Q : path) (s : list item) : Prop :=
-  conforms name (fun k => glob_free k = true /\ strict_prefix (name :: k) Q = false) Vals s.
+    no entry of the subscription runs below it *)
+Definition stream_ok (name : string) (Vals : tv -> Prop) (Qrs : list path) (s : list item) : Prop :=
+  conforms name (fun k => glob_free k = true /\ forall Qr, In Qr Qrs -> strict_prefix k Qr = false) Vals s.
 
-Theorem relay_faithful_all (name : string) (Vals : tv -> Prop) (Q Qr : path)
+(** [Qrs]: what the entries' paths complete to (path.CompletePath), i.e. the
+    registered queries without the target name; the subscription may have any
+    number of entries, with the origin in the prefix or in each entry's path *)
+Theorem relay_faithful_all (name : string) (Vals : tv -> Prop) (Qrs : list path)
     (cq : cquery) (s : list item) (cfg : config) (ss : streams) (sched : list action) :
   (forall v : tv, Vals v -> to_scalar v <> None) ->
   (forall a b : tv, Vals a -> Vals b -> tv_equal a b = true -> to_scalar a = to_scalar b) ->
   (forall a b : tv, Vals a -> Vals b -> tv_eqb a b = true -> a = b) ->
-  Q = name :: Qr -> glob_free Q = true ->
-  sub_query cq = Q -> g_target (cq_prefix cq) = name ->
-  complete_path (cq_prefix cq) (cq_path cq) = Some Qr ->
-  stream_ok name Vals Q s ->
+  (forall Qr, In Qr Qrs -> glob_free Qr = true) ->
+  g_target (cq_prefix cq) = name ->
+  map (complete_path (cq_prefix cq)) (cq_paths cq) = map Some Qrs ->
+  stream_ok name Vals Qrs s ->
   validate cfg = true -> NoDup (keys (cf_targets cfg)) ->
   (forall n, In n (keys (cf_targets cfg)) -> is_glob n = false) ->
   In name (keys (cf_targets cfg)) ->
   NoDup (keys ss) -> assoc name ss = Some s ->
   (forall n' l, In (n', l) ss -> Forall (item_nometa n') l) ->
   exists l, pipeline cfg ss cq sched = VLeaves l /\
-            Permutation l (selects Q (stamp_paths name (replay s))).
+            Permutation l (selects_any (sub_queries cq) (stamp_paths name (replay s))).
 Proof.
-  intros V1 V2 V3 HQ HQg Hq Ht Hc Hs. intros.
-  eapply (relay_multi name (fun k => glob_free k = true /\ strict_prefix (name :: k) Q = false) Vals Q Qr);
-    eauto; cbn; tauto.
+  intros V1 V2 V3 HQg Ht Hc Hs. intros.
+  eapply (relay_multi name (fun k => glob_free k = true /\ forall Qr, In Qr Qrs -> strict_prefix k Qr = false)
+            Vals Qrs); eauto.
+  - cbn. tauto.
+  - cbn. intros Qr k Hq [_ Hk]. now apply Hk.
 Qed.
 
 (** ** the hypotheses are satisfiable (and the conclusion is about a non-empty view) *)
@@ -2541,39 +2605,47 @@ Definition cfg : config :=
                     ("dev2", {| t_addresses := ["h:2"]; t_request := "all" |})] |}.
 Definition ss : streams := [("dev1", s1); ("dev2", s2)].
 Definition q : cquery :=
-  {| cq_prefix := {| g_origin := ""; g_target := "dev1"; g_elem := []; g_element := [] |}; cq_path := gp "" [] |}.
+  {| cq_prefix := {| g_origin := ""; g_target := "dev1"; g_elem := []; g_element := [] |}; cq_path := gp "" [];
+     cq_more := [] |}.
+(** one request, two entries, the origin in each entry's path (none in the prefix) *)
+Definition q2 : cquery :=
+  {| cq_prefix := {| g_origin := ""; g_target := "dev1"; g_elem := []; g_element := [] |};
+     cq_path := gp "foo" []; cq_more := [gp "openconfig" [el "a"]] |}.
 Definition sched : list action := [AIngest "dev1"; ASubscribe; AIngest "dev2"; ASend; AIngest "dev1"].
 Definition valset : list tv := [TVInt 5; TVString "up"; TVDecimal 15 1].
 
 Lemma example :
-  exists l, pipeline cfg ss q sched = VLeaves l /\
-            Permutation l (selects ["dev1"] (stamp_paths "dev1" (replay s1))) /\ List.length l = 2%nat.
+  exists l, pipeline cfg ss q2 sched = VLeaves l /\
+            Permutation l (selects_any [["dev1"; "foo"]; ["dev1"; "openconfig"; "a"]]
+                             (stamp_paths "dev1" (replay s1))) /\ List.length l = 2%nat.
 Proof.
-  destruct (relay_faithful_all "dev1" (fun v => In v valset) ["dev1"] [] q s1 cfg ss sched)
+  destruct (relay_faithful_all "dev1" (fun v => In v valset) [["foo"]; ["openconfig"; "a"]] q2 s1 cfg ss sched)
     as (l & Hl & Hp).
   - intros v Hv. cbn in Hv. repeat (destruct Hv as [<-|Hv]; [discriminate|]). contradiction.
   - intros a b Ha Hb. cbn in Ha, Hb.
     repeat (destruct Ha as [<-|Ha]; [repeat (destruct Hb as [<-|Hb]; [cbn; congruence|]); contradiction|]). contradiction.
   - intros a b Ha Hb. cbn in Ha, Hb.
     repeat (destruct Ha as [<-|Ha]; [repeat (destruct Hb as [<-|Hb]; [cbn; congruence|]); contradiction|]). contradiction.
-  - reflexivity.
-  - reflexivity.
-  - reflexivity.
+  - intros Qr HQ. cbn in HQ. repeat (destruct HQ as [<-|HQ]; [reflexivity|]). contradiction.
   - reflexivity.
   - reflexivity.
   - split; [|split; [|reflexivity]].
     + assert (Hi : forall nt, g_origin (spre "dev1" nt) <> meta_root ->
                 (forall u, In u (n_updates nt) ->
-                   rec_ok "dev1" (fun k => glob_free k = true /\ strict_prefix ("dev1" :: k) ["dev1"] = false)
+                   rec_ok "dev1" (fun k => glob_free k = true /\
+                                    forall Qr, In Qr [["foo"]; ["openconfig"; "a"]] -> strict_prefix k Qr = false)
                      (fun v => In v valset)
                      {| lr_ts := n_ts nt; lr_prefix := spre "dev1" nt; lr_path := fst u; lr_val := snd u |}) ->
-                item_good "dev1" (fun k => glob_free k = true /\ strict_prefix ("dev1" :: k) ["dev1"] = false)
+                item_good "dev1" (fun k => glob_free k = true /\
+                                    forall Qr, In Qr [["foo"]; ["openconfig"; "a"]] -> strict_prefix k Qr = false)
                   (fun v => In v valset) (IUpd nt))
         by (intros nt A B; split; assumption).
       unfold s1. repeat (apply Forall_cons; [|]); try apply Forall_nil; try exact I; apply Hi;
         try (cbn; discriminate); intros u Hu; cbn in Hu;
         repeat (destruct Hu as [<-|Hu];
-                [constructor; [reflexivity|cbn; discriminate|cbn; discriminate|cbn; split; reflexivity|cbn; auto 10]|]);
+                [constructor; [reflexivity|cbn; discriminate|cbn; discriminate
+                              |cbn; split; [reflexivity|intros Qr HQ; repeat (destruct HQ as [<-|HQ]; [reflexivity|]); contradiction]
+                              |cbn; auto 10]|]);
         contradiction.
     + unfold s1. repeat (apply Forall_cons; [|]); try apply Forall_nil; try exact I;
         cbn; try discriminate; intros _; split; intros x Hx; cbn in Hx;
@@ -2586,7 +2658,7 @@ Proof.
   - reflexivity.
   - intros n' l0 Hin. cbn in Hin. repeat (destruct Hin as [E|Hin]; [inversion E; subst; repeat constructor; cbn; discriminate|]).
     contradiction.
-  - exists l. split; [assumption|]. split; [assumption|].
+  - exists l. split; [assumption|]. split; [exact Hp|].
     apply Permutation_length in Hp. rewrite Hp. reflexivity.
 Qed.
 End RelayExample.
@@ -2691,6 +2763,23 @@ Lemma mixed_encoding_regression :
   del_full (to_delete_gen true r_mixed 300) = ["dev1"; "openconfig"; "a"] /\
   del_full (to_delete r_mixed 300) = full_path r_mixed.
 Proof. vm_compute. repeat split; reflexivity. Qed.
+(** one request with two entries, the origin in the path of the FIRST entry (none
+    in the prefix): each entry is registered from the same prefix strings, so a
+    change streamed after the sync under the second entry arrives *)
+Definition s_entries : list item :=
+  [upd 100 (Some (gp "foo" [])) (gp "" [el "z"]) (TVInt 1);
+   upd 110 None (gp "" [el "a"; el "x"]) (TVInt 2);
+   upd 120 None (gp "" [el "a"; el "x"]) (TVInt 3);
+   IUpd {| n_ts := 130; n_prefix := Some (gp "foo" []); n_updates := []; n_deletes := [gp "" [el "z"]] |}].
+
+Lemma entries_example :
+  sub_queries q2 = [["dev1"; "foo"]; ["dev1"; "openconfig"; "a"]] /\
+  pipeline cfg1 [("dev1", s_entries)] q2
+      [AIngest "dev1"; AIngest "dev1"; ASubscribe; ASend; ASend; ASend; AIngest "dev1"; ASend; AIngest "dev1"]
+    = VLeaves [(["dev1"; "openconfig"; "a"; "x"], SInt 3)] /\
+  selects_any (sub_queries q2) (stamp_paths "dev1" (replay s_entries))
+    = [(["dev1"; "openconfig"; "a"; "x"], SInt 3)].
+Proof. vm_compute. repeat split; reflexivity. Qed.
 End Refuted.
 
 (** * Soundness of the executable property checker K_P (PipelineCheck.kp_client) *)
@@ -2739,13 +2828,11 @@ Qed.
 Lemma kp_client_sound i c q l :
   let name := g_target (cq_prefix q) in
   configured c name = true -> hyp_stream (stream_of c name) = true ->
-  hyp_query name (sub_query q) (stream_of c name) = true ->
-  complete_path (cq_prefix q) (cq_path q) <> None ->
+  hyp_queries name q (stream_of c name) = true ->
   kp_client i c q (OView (VLeaves l)) = [] ->
-  Permutation (drop_meta l) (spec_view c name (sub_query q)).
+  Permutation (drop_meta l) (spec_view c name (sub_queries q)).
 Proof.
-  cbn zeta. intros H1 H2 H3 H4. unfold kp_client. rewrite H1, H2, H3. cbn [andb].
-  destruct (complete_path (cq_prefix q) (cq_path q)); [|congruence].
+  cbn zeta. intros H1 H2 H3. unfold kp_client. rewrite H1, H2, H3. cbn [andb].
   destruct (leaves_eqb _ _) eqn:E.
   - intros _. symmetry. now apply leaves_eqb_perm.
   - unfold tagged. destruct (stream_class _ _ _); discriminate.
